@@ -138,6 +138,8 @@ func init() {
 			g.Static = append(g.Static, writeBeforeRead(env, g, "C14")...)
 			g.Static = append(g.Static, globalWrites(env, reach, "C14")...)
 			g.Static = append(g.Static, boundedC14Filter(env))
+			// "reports nothing that is not in the input": no value is interpreted as a format
+			g.Static = append(g.Static, frame.ConstantFormats(env.Prog, reach))
 			g.Unverified = []string{
 				"which lines the selection regexp accepts, the noise-path regexps, the journald JSON unwrapping",
 			}
@@ -346,6 +348,7 @@ func init() {
 			g.Static = append(g.Static, globalWrites(env, pfReach, "C02")...)
 			g.Static = append(g.Static, guardedState(env, g, perFile, extra, "C02")...)
 			g.Static = append(g.Static, boundedC07Exec(env))
+			g.Static = append(g.Static, boundedC07Stack(env))
 			g.Unverified = []string{
 				"that no #aa: directive remains after the build (Run scans the original text once; Stack.Apply inserts foreign text)",
 				"the cleaning of a stacked profile body by multi-line regexps; that the host profile's own rules stay as they were",
